@@ -518,6 +518,30 @@ def loop_designs():
         d.bitacyclic = False
         d.family = "divergent"
         out.append(d)
+    # large cyclic groups (>= 10 blocks, alternating branchy / branch-free stages): Mamba2020 partitions
+    # the body of such a group into several meta blocks.  A ring whose loop closes through saturation:
+    # stage 0 takes max(a, last stage), every other stage passes its predecessor on (odd stages through
+    # an `if`), so the ring settles after two passes.
+    for n in (10, 12, 15):
+        d = _mk("L%d" % k)
+        k += 1
+        a = d.add_sig((), "a", "in", 3)
+        st = [d.add_sig((), "s%d" % j, "wire", 3) for j in range(n)]
+        o = d.add_sig((), "o", "out", 3)
+        last = rd(View(st[n - 1]))
+        blk(d, "t0", (), [{"k": "if", "c": {"k": "cmp", "op": "lt", "a": last, "b": rd(View(a))},
+                           "th": [as_(View(st[0]), rd(View(a)))], "el": [as_(View(st[0]), last)]}])
+        for j in range(1, n):
+            prev = rd(View(st[j - 1]))
+            if j % 2:
+                blk(d, "t%d" % j, (), [{"k": "if", "c": {"k": "cmp", "op": "ne", "a": prev, "b": lit(3, 0)},
+                                         "th": [as_(View(st[j]), prev)], "el": [as_(View(st[j]), lit(3, 0))]}])
+            else:
+                blk(d, "t%d" % j, (), [as_(View(st[j]), prev)])
+        blk(d, "C", (), [as_(View(o), rd(View(st[n // 2])))])
+        d.bitacyclic = False
+        d.family = "trueloop"
+        out.append(d)
     # a value cycle containing an update_once block: must be refused by every scheduler
     d = _mk("L%d" % k)
     k += 1
@@ -827,8 +851,9 @@ class Corpus:
                 i = ends[-1]
                 c["ev"][i]["st"] = list(c["ev"][i]["st"])
                 c["ev"][i]["st"][-1] ^= 1                      # flipped value at the end of a pass
-            elif kind == 1 and len(steps) >= 2:
-                # swap a dependent pair of steps if there is one
+            elif kind == 1 and len(steps) >= 2 and not designgen.is_block_cyclic(dj):
+                # swap a dependent pair of steps if there is one (only in block-acyclic designs: inside a
+                # cyclic group any order is a behaviour of the specification)
                 pairs = [(i, j) for i, j in zip(steps, steps[1:]) if j == i + 1]
                 found = False
                 fp = designgen.footprints(dj)
